@@ -15,7 +15,7 @@ from .tlc import MachineryError, TLCRun, cfg_text, run_tlc
 PY_CLASSES = ["LB", "RB", "DOT", "COL", "BANG", "N", "O"]
 PH_STYLES = ["colon", "colon_nospaces", "colon_optional_quotes", "numeric_colon", "pyformat", "dollar",
              "dollar_surround", "flyway_var", "question_mark", "numeric_dollar", "percent", "ampersand"]
-JJ_KINDS = ["LIT", "NL", "HASH", "VT", "VE", "VW", "IFT", "IFF", "ELIF", "ELSE", "ENDIF", "FOR", "ENDFOR",
+JJ_KINDS = ["LIT", "NL", "HASH", "BRC", "DLR", "VT", "VE", "VW", "IFT", "IFF", "ELIF", "ELSE", "ENDIF", "FOR", "ENDFOR",
             "SET", "SETB", "CMT", "WIF", "WENDIF", "WV", "RAW", "MAC", "DO"]
 
 
@@ -40,23 +40,40 @@ def site_of(exc: BaseException) -> str:
 
 # ------------------------------------------------------------------------------------ python format
 PY_CHAR = {"LB": "{", "RB": "}", "DOT": ".", "COL": ":", "BANG": "!", "N": "s"}
-PY_OTHER = [" ", ",", "\n", "-", "é", "'", "("]
+PY_OTHER = [" ", ",", "\n", "-", "é", "'", "(", ")"]
+# how the values of the replay context look: they may start / end with characters that also occur in the literals
+PY_VALUE_STYLES = ["plain", "other", "name", "dot", "punct"]
 
 
 def py_text(classes: List[str], other: str = " ") -> str:
     return "".join(PY_CHAR.get(c, other) for c in classes)
 
 
-def py_context(maxlen: int) -> Dict[str, Any]:
+def py_value(style: str, other: str, plain: str, k: int, dotted: bool) -> str:
+    """Value of a name with k characters.  None of these is empty or a valid format spec for str."""
+    body = ("y" if dotted else "x") * k
+    if style == "plain":
+        return plain
+    if style == "other":
+        return other + body + other
+    if style == "name":
+        return "s" + "_" * k + ("ds" if dotted else "s")
+    if style == "dot":
+        return "." + body + "."
+    return ":" + body + "!"          # punct
+
+
+def py_context(maxlen: int, style: str = "plain", other: str = " ") -> Dict[str, Any]:
     """Every name s, ss, sss.. has a value; every proper dotted name has one under 'sqlfluff'."""
-    ctx: Dict[str, Any] = {"s" * k: f"v{k}" for k in range(1, maxlen + 1)}
+    ctx: Dict[str, Any] = {"s" * k: py_value(style, other, f"v{k}", k, False) for k in range(1, maxlen + 1)}
     dotted: Dict[str, str] = {}
 
     def gen(prefix: str, room: int) -> None:
         # prefix ends with a name character; extend with ".s+" groups
         for k in range(1, room):
             name = prefix + "." + "s" * k
-            dotted[name] = "d" + "".join("0" if ch == "." else "1" for ch in name)
+            plain = "d" + "".join("0" if ch == "." else "1" for ch in name)
+            dotted[name] = py_value(style, other, plain, len(name), True)
             gen(name, room - k - 1)
 
     for k in range(1, maxlen + 1):
@@ -147,6 +164,7 @@ def real_placeholder(text: str, style: str):
 JJ_TEXT = {
     "NL": "\n",
     "HASH": "\n# not a line statement\n",
+    "BRC": "'{\"k\": 1}'", "DLR": "${x}",
     "VT": "{{ v }}", "VE": "{{ e }}", "VW": "{{ w }}",
     "IFT": "{% if t %}", "IFF": "{% if f %}", "ELIF": "{% elif t2 %}", "ELSE": "{% else %}", "ENDIF": "{% endif %}",
     "FOR": "{% for i in r %}", "ENDFOR": "{% endfor %}",
